@@ -641,6 +641,9 @@ def trough_names(ctx) -> None:
     body = fv.cfg.loop_body[lp.id]
     it = fv.res.resolve(lp.ast.iter, lp.id)
     ok_it = isinstance(it, ast.Call) and call_fname(it) == "enumerate" and isinstance(it.args[0], ast.Call) and call_fname(it.args[0]) == "zip" and [getattr(a, "id", None) for a in it.args[0].args] == ["column_names", "initial_volumes"]
+    if not ok_it and isinstance(it, ast.Call) and call_fname(it) == "enumerate" and len(it.args) == 1 and is_name(strip_norm(it.args[0]), "column_names"):
+        # the names alone, the volume of the column read as initial_volumes[<counter>] (both have one entry per column: shape guard)
+        ok_it = True
     ctx.rep.check(ok_it, rule, f"{f.qualname}/iteration", "iterates enumerate(zip(column_names, initial_volumes))", f"iterates `{show(it)[:60]}`", where=f.where(lp.ast))
     # the dict that is returned, the stores into it, and the variable holding the name that is stored
     ret_names = {getattr(fv.alias_root(n.ast.value, n.id), "id", None) for n in fv.return_nodes()}
